@@ -107,6 +107,18 @@ def oracle(case, rec):
     if not (np.array_equal(fin, f0) and np.array_equal(astored, a0)):
         raise Violation('C10/input-modified', 'frequency or amplitude array changed by hilberthuang_1d / hilberthuang')
     spd = np.asarray(sp.toarray())
+    # the caller keeps these results and asks for the spectrum of other amplitudes on the same grid
+    keep = [np.array(one), np.array(dense), np.array(spd)]
+    try:
+        other = (a0 * 2 + 1).astype(a0.dtype)
+        emd.spectra.hilberthuang_1d(f0, other, E(), mode=mode)
+        emd.spectra.hilberthuang(f0, other, E(), mode=mode, return_sparse=False)
+        emd.spectra.hilberthuang(f0, other, E(), mode=mode, return_sparse=True)
+    except Exception as e:
+        raise Violation('C10/raises/%s/second-request' % type(e).__name__, repr(e))
+    if not (np.array_equal(one, keep[0], equal_nan=True) and np.array_equal(dense, keep[1], equal_nan=True)
+            and np.array_equal(np.asarray(sp.toarray()), keep[2], equal_nan=True)):
+        raise Violation('C10/earlier-result-changed-by-a-later-request', 'a spectrum returned earlier was overwritten by the next call')
     if not close(dense, H):
         where = 'below-first-edge' if below and close(dense[1:], H[1:]) else tag
         raise Violation('C10/hilberthuang/dense-vs-bruteforce/' + where,
